@@ -25,8 +25,7 @@ LEVEL_NOTE = (
     "Trusted: clang 14 AST, the interpreters in rules/C13.py + lib/gf2.py (pure Python integers), "
     "the list of prime factors of 2^160-1 (product and primality re-verified on each run). "
     "Assumptions: event*size does not wrap 64 bits; no slot draws 2^67 numbers in one event.")
-TECHNIQUE = ("abstract interpretation over GF(2) (exact linear domain) of the clang AST + exact "
-             "polynomial arithmetic; interval/bit-width analysis for the canonical conversion")
+TECHNIQUE = ('abstract interpretation over GF(2) (exact linear domain) of the clang AST + exact polynomial arithmetic for the jump tables; path-forking bit-vector interpretation of jump(count, table) for all 64-bit counts (lib/bitpath.py); interval/IEEE analysis of the canonical conversion')
 EXPLANATION = LEVEL_TEXT
 NOT_DECIDED = "statistical quality of the generator"
 
